@@ -668,6 +668,16 @@ func stripMal(v *Val) Val {
 	n := *v
 	n.Pad = 0
 	n.NoArcs = false
+	if len(v.Latin) > 0 {
+		// same length, PrintableString characters only (never empty, so the twin keeps the shape of the original)
+		b := append([]byte{}, v.Latin...)
+		for i := range b {
+			if !isPrintableCanon(b[i]) {
+				b[i] = 'x'
+			}
+		}
+		n.S = string(b)
+	}
 	n.Latin = nil
 	if len(v.Kids) > 0 {
 		n.Kids = make([]Val, len(v.Kids))
